@@ -55,7 +55,7 @@ def childKw (f : Flags) (k : CompKind) : Option ChildKw :=
   | _ => some {
       iDel := f.del.or (f.iDel.or (if defaultDelete k then some true else none)),
       iNew := f.new.or f.iNew,
-      iSafe := f.safe.or f.iSafe }
+      iSafe := if f.iSafe = some false then some false else f.safe.or f.iSafe }   -- an inherited `safe=False` always wins
 
 /-- Write the inherited flags into a child (an inherited `safe=False` is sticky). -/
 def updFlags (kw : ChildKw) (f : Flags) : Flags :=
